@@ -5,6 +5,9 @@ C = "check existed before the report was read; MISSED, then strengthened"
 I = "round 2: detected by the unmodified check (independent)"
 S = "round 2: MISSED by the unmodified check; obligation added / extended afterwards"
 O = "round 2: MISSED; outside what the technique reaches here (see DESIGN.md section 8)"
+I3 = "round 3 (after the round-2 extensions): detected by the unmodified check (independent)"
+S3 = "round 3: MISSED by the unmodified check; obligation added / extended afterwards"
+M3 = "round 3: MISSED; left as it is (see note)"
 TABLE = {
     "C01-1": ("C01", "parameter_keywords", C), "C01-2": ("C01", "body_strategy_cache", C), "C02-1": ("C02", "output_filter", A), "C02-2": ("C02", "body_strategy_cache", A),
     "C03-1": ("C03", "positive_number_multiple", B), "C03-2": ("C03", "_cases", A), "C04-1": ("C04", "definition_selection", A), "C04-2": ("C04", "nullable_twice", A),
@@ -26,8 +29,16 @@ TABLE = {
     "R2-C16-1": ("C16", "double_quoted", I), "R2-C16-2": ("C16", "har_entry", S), "R2-C17-1": ("C17", "attach_examples", S), "R2-C17-2": ("C17", "schema_examples", S),
     "R2-C18-1": ("C18", "prefix_identity", S), "R2-C18-2": ("C18", "availability_optional", S), "R2-C19-1": ("C19", "hooks_between_examples", S), "R2-C19-2": ("C19", "hook_history_2", S),
     "R2-C20-1": ("C20", "scalar_text", S), "R2-C20-2": ("C20", None, O),
+    "R3-C03-1": ("C03", "negative_items", S3), "R3-C03-2": ("C03", "positive_array", I3), "R3-C06-1": ("C06", None, M3), "R3-C09-1": ("C09", "curl_argv", I3),
+    "R3-C09-2": ("C09", "curl_argv", I3), "R3-C10-1": ("C10", "link_extraction", I3), "R3-C10-2": ("C10", "link_extraction", S3), "R3-C14-1": ("C14", None, M3),
+    "R3-C14-2": ("C14", "header_precedence", I3), "R3-C17-1": ("C17", "schema_examples", S3), "R3-C17-2": ("C17", "fixed_parameters", S3),
 }
 NOTES = {
+    "R3-C06-1": "WSGI transport + werkzeug's choice of Content-Type for a multipart body without files: the harnesses execute the requests transport only; the WSGI / ASGI transports are outside (stated in C06's evidence)",
+    "R3-C14-1": "examples phase: get_strategies_from_examples merges the user's override container after the example container; no obligation executes that merge (add_examples is driven with prepared cases). Found too late to extend the check",
+    "R3-C09-1": "caught because the harness replaces curl.quote by a placeholder and the change routes values through a new helper instead: what is detected is 'the command no longer quotes through shlex.quote', not the specific mis-escaping of $ inside double quotes",
+    "R3-C03-2": "the sub-agent ran the relevant test directories but not the full pinned suite for this change (time); my confirmation covers demo with/without and import",
+    "R3-C17-2": "same function as R2-C14-2 (get_parameters_strategy), other mechanism; missed because the harness listed the required parameter first - order optional-first added; the obligation now serves C17 as well",
     "R2-C05-2": "the unmodified C05 check missed it; the unmodified C09 check (failure_data_source, same function as round-1 seed C09-1) caught it; that obligation now also serves C05",
     "R2-C01-2": "detected by the C08 check (the property that states the merge rule); the C01 check does not cover parameter merging",
     "R2-C09-2": "sanitize_url is checked by the C15 harness, which now also serves C09 (file C09C15_sanitization.py)",
